@@ -206,15 +206,32 @@ def vsum(c):
     return tot
 
 
+def add3b(a, b=0, c=0):
+    return a + b + c + 1
+
+
+def linb(x, k=2, q=0):
+    return k * x + q - 0.5
+
+
+def mixb(a, b, w=0.5):
+    return a * (1 - w) + b * w
+
+
+FUNCS = {"add3": add3, "lin": lin, "mix": mix, "vsum": vsum, "add3b": add3b, "linb": linb, "mixb": mixb}
+SLOTS = {"add3": ("add3", "add3b"), "lin": ("lin", "linb"), "mix": ("mix", "mixb"), "vsum": ("vsum",)}
+
+
 class SimFuncs:
-    """Function container: attributes are plain module-level functions."""
-    add3 = staticmethod(add3)
-    lin = staticmethod(lin)
-    mix = staticmethod(mix)
-    vsum = staticmethod(vsum)
+    """Function container: each slot (attribute) holds a plain module-level function; a slot can be re-assigned
+    through its reference like any other location (the tasks calling it must then run again)."""
+
+    def __init__(self, impl=None):
+        for slot, names in SLOTS.items():
+            object.__setattr__(self, slot, FUNCS[(impl or {}).get(slot, names[0])])
+
+    def _impl(self):
+        return {slot: object.__getattribute__(self, slot).__name__ for slot in SLOTS}
 
     def __reduce__(self):
-        return (SimFuncs, ())
-
-
-FUNCS = {"add3": add3, "lin": lin, "mix": mix, "vsum": vsum}
+        return (SimFuncs, (self._impl(),))
